@@ -595,8 +595,7 @@ where
     fn extend<T: IntoIterator<Item = (I, P)>>(&mut self, iter: T) {
         for (item, priority) in iter {
             if self.map.contains_key(&item) {
-                let (_, old_item, old_priority) = self.map.get_full_mut2(&item).unwrap();
-                *old_item = item;
+                let (_, _, old_priority) = self.map.get_full_mut2(&item).unwrap();
                 *old_priority = priority;
             } else {
                 self.map.insert(item, priority);
